@@ -165,6 +165,50 @@ example :
     (get (Sys.run {} (staleHistory.take 8)).ca.classes 0).map (fun rc => (rc.certs.issued, rc.certs.suspended)) =
       some ([(6, { res := [1, 2], na := 61 })], [(6, { res := [1, 2], na := 60 })]) := by decide
 
+/-! ## The published level -/
+
+/-
+Full statement: in every reachable state every *published* child certificate lies inside the
+certificate of the set that publishes it (`Sys.noOverclaimPublished`).  `never_overclaims`
+above is this statement for the aggregate's `issued` map – what the CA believes it publishes.
+The two agree as long as the listener's object set mirrors the aggregate; F-C02-1 breaks that
+mirror: `shrink_overclaiming` can name a key in `issued` **and** in `removed` (live certificate
+re-issued, stale suspended entry shrunk to nothing), `CertAuth::apply` inserts then removes,
+`KeyObjectSet::update_certs` removes then inserts – the re-issued certificate stays published
+as an orphan and over-claims after the next shrink.  Witness below, replayed on the
+implementation (corpus/system/c02-stale-orphan-published.ops).
+-/
+
+def orphanHistory : List Cmd :=
+  [ .repoUpdate [], .addParent 9,
+    .updateEntitlements 9 [⟨0, [1, 2, 3], 100, []⟩] 0 [4],
+    .updateRcvdCert 0 4 { res := [1, 2, 3], na := 100 } 50 [],
+    .childAdd 7 [1, 2],
+    .childCertify 7 0 6 none 60,
+    .childSuspend 7,
+    .childUnsuspend 7 10 61,
+    .childUpdateResources 7 [1, 2, 3],
+    .childCertify 7 0 6 none 62,
+    .updateRcvdCert 0 4 { res := [3], na := 100 } 63 [],
+    .updateRcvdCert 0 4 { res := [2], na := 100 } 64 [] ]
+
+theorem not_never_overclaims_published :
+    ¬ ∀ s : Sys, Reachable s → s.noOverclaimPublished = true := by
+  intro hall
+  have := hall (Sys.run {} orphanHistory) (reachable_run .init _)
+  revert this
+  decide
+
+/-- The orphan: nothing issued, the key revoked in the child's record, and still a certificate
+for resource 3 published under a certificate that holds resource 2 only. -/
+example :
+    let s := Sys.run {} orphanHistory
+    (get s.ca.classes 0).map (·.certs.issued) = some [] ∧
+    (get s.ca.children 7).map (·.usedKeys) = some [(6, .revoked)] ∧
+    (get s.objs 0).map (fun ok => (ok.currentSet.cert.res, ok.currentSet.published)) =
+      some ([2], [(.cer 6, .cert { res := [3], na := 63 })]) ∧
+    s.ca.noOverclaim = true := by decide
+
 /-! ## Synchronisation converges and is then idempotent -/
 
 /-- A converged child: the sync round takes the "fetch entitlements" branch
